@@ -7,7 +7,7 @@ impl<T> SeqMutex<T> {
     #[verifier::external_body]
     pub fn new(v: T) -> (r: SeqMutex<T>) ensures r.v == v { SeqMutex { v } }
     #[verifier::external_body]
-    pub fn lock(&mut self) -> (r: Result<&mut T, SeqPoison>)
+    pub fn lock(&mut self) -> (r: std::result::Result<&mut T, SeqPoison>)
         ensures r is Ok, *r->Ok_0 == old(self).v, final(self).v == *final(r->Ok_0),
     { Ok(&mut self.v) }
 }
